@@ -8,7 +8,7 @@ from mc.enumerate import lattice_points
 from mc.seams import HKSeam
 from oracles import matching as om
 
-CALL_VARIANTS = True   # every whitelisted persim call is repeated with its arrays in another memory layout (mc/ctx.py)
+CALL_VARIANTS = 3    # (every third eligible call)   # every whitelisted persim call is repeated with its arrays in another memory layout (mc/ctx.py)
 PROPERTY = "C06"
 HASH_GROUPS = {"quick": 2, "thorough": 4}
 RULE = (
